@@ -282,6 +282,7 @@ def run(ctx: Ctx, wd, handles_only: bool = False, only_feature: str | None = Non
     # ---- S->C: every distinct finished state
     ROOTS = {"RootBQ": [{"t": "Sum", "s": "Unit", "size": 2}, {"t": "Q"}], "RootB": [{"t": "Sum", "s": "Unit", "size": 2}], "Module": "module"}
     cur_root = ["RootBQ"]
+    guard = [0]
     n = [0]
     feats = Counter()
 
@@ -372,6 +373,18 @@ def run(ctx: Ctx, wd, handles_only: bool = False, only_feature: str | None = Non
             if idx in counts and got != counts[idx]:
                 ctx.violation(dict(sig, clauses="handle count"), {"hist": hist, "node": idx}, counts[idx], got, clause="HugrBuilder!HandleCounts", leg="S2C")
                 return
+        # vacuity guard of the comparison: the same program with one call dropped must NOT reproduce the specification's document
+        if guard[0] < 40 and not handles_only and any(x in ("AddOp", "Load", "LoadUnit") for x in acts[:-1]):
+            j = next(i for i, x in enumerate(acts[:-1]) if x in ("AddOp", "Load", "LoadUnit"))
+            guard[0] += 1
+            try:
+                h2, _ = replay(hist[:j] + hist[j + 1:], ROOTS[cur_root[0]])
+                d2 = json.loads(h2.to_json())
+                same = [norm_node(x) for x in d2["nodes"]] == en and Counter(json.dumps(e) for e in d2["edges"]) == ee
+            except Exception:  # noqa: BLE001
+                same = False
+            if same:
+                raise MachineryError(f"builder model: dropping call {j} of {hist} went unnoticed by the document comparison")
         if len(hist) >= 3 and ("AddNested" in acts or "AddConditional" in acts or "AddTailLoop" in acts or "AddCfg" in acts) and n[0] % 7 == 0:
             ctx.sample({"builder_program": hist, "expected_edges": exp["edges"]})
     s_cfgs = ([C("RootBQ", 4, 2, ALL_OPS, DF), C("RootBQ", 7, 2, ("H",), CO), C("RootBQ", 7, 2, ("Some",), CO), C("RootBQ", 4, 2, ("Some", "Cont"), LO),
@@ -425,6 +438,7 @@ def run(ctx: Ctx, wd, handles_only: bool = False, only_feature: str | None = Non
     ctx.note("builder_model_walk_programs_replayed", len(seen_walks))
     if sims and not feats["walk>=10 calls"]:
         raise MachineryError("builder model: simulation produced no finished program of >= 10 calls")
+    ctx.note("builder_model_comparison_guard_cases", guard[0])
     ctx.note("builder_model_finished_states_replayed", n[0])
     ctx.note("builder_model_features", dict(feats))
     need = (("insert:nestext", "insert:loop", "insert:cond", "insert:cfg") if only_feature == "insert" else ("nested", "cond", "loop", "cfg", "insert") if handles_only else
